@@ -25,9 +25,9 @@ Init == /\ pc = "call" /\ o = [out |-> "none"]
                      /\ c = [fam |-> "read", fmt |-> fmt, f |-> [lines |-> ls, bom |-> bom, crlf |-> crlf, src |-> src]]
              [] Which = "transform" ->
                   \E enc \in {"npy", "txt", "json"}, cls \in {"se3", "sim3", "sim3small", "sim3milli", "sim3kilo", "reflection", "shear", "shearmilli", "shearkilo", "aniso", "anisomilli",
-                                                                "badrow", "zero", "shape3x3", "negscale", "zeroscale"} :
-                     /\ (enc = "json" => cls \in {"se3", "sim3", "sim3small", "sim3milli", "sim3kilo", "negscale", "zeroscale"})
-                     /\ (enc # "json" => cls \notin {"negscale", "zeroscale"})
+                                                                "badrow", "zero", "shape3x3", "negscale", "zeroscale", "se3int"} :
+                     /\ (enc = "json" => cls \in {"se3", "sim3", "sim3small", "sim3milli", "sim3kilo", "negscale", "zeroscale", "se3int"})
+                     /\ (enc # "json" => cls \notin {"negscale", "zeroscale", "se3int"})
                      /\ c = [fam |-> "transform", enc |-> enc, cls |-> cls]
              [] Which = "write" -> \E fmt \in {"tum", "kitti"}, n \in 1..3, built \in {"se3", "pq"}, src \in {"path", "handle", "Path"} :
                      c = [fam |-> "write", fmt |-> fmt, n |-> n, built |-> built, src |-> src]
